@@ -573,7 +573,7 @@ pub fn parse_datefile(file: &str) -> Vec<Vec<DatePattern>> {
         let res = parse_datepattern(&mut line.chars().peekable());
         match res {
             Ok(res) => defs.push(res),
-            Err(e) => println!("Line {}: {}: {}", num, e, line),
+            Err(e) => eprintln!("Line {}: {}: {}", num, e, line),
         }
     }
     defs
